@@ -6,6 +6,11 @@ use std::fmt;
 use std::fmt::{Debug, Display, Formatter};
 use std::ops::DerefMut;
 use std::str::FromStr;
+#[cfg(feature = "Verif_Hooks")]
+use crate::verif_sync::Mutex;
+#[cfg(feature = "Verif_Hooks")]
+use std::sync::Arc;
+#[cfg(not(feature = "Verif_Hooks"))]
 use std::sync::{Arc, Mutex};
 
 use crate::common::ArgOption;
